@@ -34,7 +34,7 @@ CLAIMED = {
     ),
     "C09": dict(
         technique="static analysis: order-provenance dataflow (annotation-typed set/dict/sequence values with HASH taints, interprocedural summaries, sinks = emitted text / slot numbers / topological sorter / templates / ordered accessors) + who-may-write check for process-global state; since the rebuild the function-level clauses are decided on abstract values (sa/av.py: symbolic summaries of what a function computes, compared with the vetted reference value; three-valued: ok / violation / undecided)",
-        text="Decides, for all models and hash seeds at once, that no order derived from iterating a set/frozenset (or from a sort with a non-injective key) reaches an order-sensitive sink on the load->generate->save path (all ~30 set-iteration sites are enumerated and discharged), and that no function of the package writes module-level objects (history independence). Also: no public function modifies a caller-supplied argument in place (directly, through an alias, or by handing it to a package function that does), so a list or dict of options passed twice gives the same result twice.",
+        text="Decides, for all models and hash seeds at once, that no order derived from iterating a set/frozenset (or from a sort with a non-injective key) reaches an order-sensitive sink on the load->generate->save path (all ~30 set-iteration sites are enumerated and discharged), and that no function of the package writes module-level objects (history independence). Also: no public function modifies a caller-supplied argument in place (directly, through an alias, or by handing it to a package function that does), so a list or dict of options passed twice gives the same result twice. An early exit from a loop over an unordered collection may not select by visiting order (sink S9), and no function on the path draws on a per-process source (sympy.Dummy's counter, id(), hash(), uuid, random, temporary names; clocks in the text-producing modules).",
         note="Receiver types come from the package's annotations (no type checker available); untyped operands are counted and assumed to be external ordered sequences. sympy/graphlib/lark are assumed deterministic given ordered inputs. myokit.py is out of scope.",
         ref="3/C09",
     ),
@@ -46,13 +46,13 @@ CLAIMED = {
     ),
     "C12": dict(
         technique="static analysis: provenance of every removal predicate (must be `name in ODE.dependents()`), loop/filter shape of dependents(), call-site arguments of the unpack helpers, purity of generator methods, STATE slot family; since the rebuild the function-level clauses are decided on abstract values (sa/av.py: symbolic summaries of what a function computes, compared with the vetted reference value; three-valued: ok / violation / undecided)",
-        text="Decides that liveness is computed from the complete, unfiltered dependency relation, that only rhs filters the state unpacking while schemes/monitors unpack every state they read, that generator methods keep no state between calls, and that the state slot layout is independent of remove_unused (post-sort filter over intermediates only). The PARAM slot family is checked the same way (a producer that filters by use before numbering renumbers the used parameters).",
+        text="Decides that liveness is computed from the complete, unfiltered dependency relation, that only rhs filters the state unpacking while schemes/monitors unpack every state they read, that generator methods keep no state between calls, and that the state slot layout is independent of remove_unused (post-sort filter over intermediates only). The PARAM slot family is checked the same way (a producer that filters by use before numbering renumbers the used parameters). Every scheme builder prints the definition of each helper name its update formula reads on every path that reads it (it never relies on a same-named definition of the model, which removal would drop).",
         note="Numerical equality of the two generated modules is not decided.",
         ref="3/C12",
     ),
     "C18": dict(
         technique="static analysis: parameter def-use / keyword-forwarding flow over the typer commands, mains and get_code; evaluation-order check of load -> generate -> write; config-key table cross-checked with docs/config.md; since the rebuild the function-level clauses are decided on abstract values (sa/av.py: symbolic summaries of what a function computes, compared with the vetted reference value; three-valued: ok / violation / undecided)",
-        text="Decides that every option a conversion command accepts reaches the dispatched main (and from there get_code / the generator / add_schemes / the formatter / the output path), per scheme which keyword arguments are passed, that the output file is touched only after generation returned and holds get_code's text unmodified with no handler around it, that an explicit --config wins, and that every documented configuration key is read with the CLI value as default into the forwarded variable. Also: the file written is the given output name itself (sibling mains agree), validate_scheme keeps one scheme per requested entry in the order given, and the backend selects its generator with unknown backends rejected.",
+        text="Decides that every option a conversion command accepts reaches the dispatched main (and from there get_code / the generator / add_schemes / the formatter / the output path), per scheme which keyword arguments are passed, that the output file is touched only after generation returned and holds get_code's text unmodified with no handler around it, that an explicit --config wins, and that every documented configuration key is read with the CLI value as default into the forwarded variable. Also: the file written is the given output name itself (sibling mains agree), validate_scheme keeps one scheme per requested entry in the order given, and the backend selects its generator with unknown backends rejected. Every non-raising path of a main writes the output file, and the project's own pyproject.toml is consulted only where no --config path was given.",
         note="Exit codes as seen from a shell and typer's own validation are not decided.",
         ref="3/C18",
     ),
@@ -85,7 +85,7 @@ CLAIMED.update({
     ),
     "C08": dict(
         technique="static analysis: guard-structure checks (registry scope, redefinition raise before set merge, recorded kinds, predicate), pairing guards, frozen table of every except clause; since the rebuild the function-level clauses are decided on abstract values (sa/av.py: symbolic summaries of what a function computes, compared with the vetted reference value; three-valued: ok / violation / undecided)",
-        text="Decides that the guards exist, see every definition and cannot be bypassed: redefinitions raise before atoms are merged in sets, gather_atoms records all four kinds (tagged), check_components runs first for every component, d<x>_dt always goes through find_state, undefined symbols become MissingSymbolError, and no except clause outside the vetted table can swallow an error. That every concrete ill-formed text raises is not decided. Also: one atom per entry of a declaration block, atoms registered over every item of a line, sort_assignments hands every dependency to graphlib, no path fabricates a symbol for an unknown name.",
+        text="Decides that the guards exist, see every definition and cannot be bypassed: redefinitions raise before atoms are merged in sets, gather_atoms records all four kinds (tagged), check_components runs first for every component, d<x>_dt always goes through find_state, undefined symbols become MissingSymbolError, and no except clause outside the vetted table can swallow an error. That every concrete ill-formed text raises is not decided. Also: one atom per entry of a declaration block, atoms registered over every item of a line, sort_assignments hands every dependency to graphlib, no path fabricates a symbol for an unknown name. The registry of first definitions is keyed by the name alone, and the expression builder visits every child of every node (an undefined name in any operand, argument or branch is looked up).",
         note="lark / graphlib behaviour trusted.",
         ref="3/C08",
     ),
@@ -121,7 +121,7 @@ CLAIMED.update({
     ),
     "C17": dict(
         technique="static analysis: taint of free text (comment / unit strings) into evaluators, handler breadth, regex star-height, grammar-model checks of the comment terminal and tagged blocks, who-may-read table for annotation attributes; since the rebuild the function-level clauses are decided on abstract values (sa/av.py: symbolic summaries of what a function computes, compared with the vetted reference value; three-valued: ok / violation / undecided)",
-        text="Decides which code can see comment / annotation text and what it may do with it: evaluators reached (three KNOWN-FINDINGs: pint evaluates the text), every failure treated as 'not a unit', no super-linear regex or recursion on it; the grammar makes comments one line-bounded terminal and accepts comment / blank lines inside tagged blocks; no generator, template or scheme reads unit / description / comment. 'Never hangs' as such is not decided. Also: the text the parser sees is the model text itself - no rewrite of the raw text (which cannot know where comments are) sits between the file and the grammar.",
+        text="Decides which code can see comment / annotation text and what it may do with it: evaluators reached (three KNOWN-FINDINGs: pint evaluates the text), every failure treated as 'not a unit', no super-linear regex or recursion on it; the grammar makes comments one line-bounded terminal and accepts comment / blank lines inside tagged blocks; no generator, template or scheme reads unit / description / comment. 'Never hangs' as such is not decided. Also: the text the parser sees is the model text itself - no rewrite of the raw text (which cannot know where comments are) sits between the file and the grammar. Free text is never part of a %-format / str.format template (logging calls with arguments), and annotations are not read through getattr either.",
         note="pint behaviour as observed for 0.26.",
         ref="3/C17",
     ),
